@@ -3,3 +3,4 @@ import KoalaVerif.Model.Lattice
 import KoalaVerif.Model.Flux
 import KoalaVerif.Model.Tables
 import KoalaVerif.Model.Cnf
+import KoalaVerif.Model.Tree
